@@ -110,8 +110,9 @@ def _cases(draw, tier):
         if o is None:
             return {'skip': 'no operand value satisfies the constraints', 'isa': cfg}
         ops.append(o)
+    regname_const = None
     perturb = draw(st.sampled_from(['none', 'none', 'none', 'reg', 'drop', 'add', 'keylabel', 'keylabel', 'keyplus', 'keyplus',
-                                    'garbage', 'garbage', 'regnear', 'regnear', 'regoffset']))
+                                    'garbage', 'garbage', 'regnear', 'regnear', 'regoffset', 'regoffset']))
     regs = isa.registers
     if perturb == 'reg' and ops and regs:
         i = draw(st.integers(0, len(ops) - 1))
@@ -129,8 +130,10 @@ def _cases(draw, tier):
         if idxs:
             i = draw(st.sampled_from(idxs))
             r = draw(st.sampled_from(regs))
-            r = draw(st.sampled_from([r, r.upper(), r.swapcase()]))
+            r = draw(st.sampled_from([r, r.upper(), r.swapcase(), r.upper()]))
             ops[i] = dict(ops[i], sign='+', off=['lab', r])
+            if r not in regs and r.isidentifier():
+                regname_const = r          # a constant may carry that spelling; it is still the register's name
     elif perturb == 'regnear' and ops:
         # a register name with one character changed (the dot of "r1.w" replaced, a letter appended) is not that register
         idxs = [i for i, o in enumerate(ops) if o['k'] in ('reg', 'indreg') and o.get('deco') is None and o.get('off') is None]
@@ -164,6 +167,9 @@ def _cases(draw, tier):
                 ops[i] = dict(ops[i], idx=key_as_label)
             else:
                 ops[i] = key_as_label
+    if regname_const is not None:
+        keyconsts = dict(keyconsts)
+        keyconsts[regname_const] = draw(st.integers(0, 3))
     # an earlier statement with the same mnemonic, generated for another variant: selection is per statement
     pre_ops = None
     if len(variants) > 1 and draw(st.booleans()):
@@ -287,7 +293,11 @@ def execute(case, ctx):
         src += f'.org {case["pre_address"]}\n' + isagen.render_statement(case['mn'], case['pre_ops']) + '\n'
     src += f'.org {case["address"]}\n' + isagen.render_statement(case['mn'], case['ops']) + '\n'
 
+    regnames = {r.lower() for r in isa.registers}
+
     def resolve(name):
+        if name.lower() in regnames:
+            raise R.Reject('register name (in any letter case) used as a number')
         if name in consts:
             return consts[name]
         raise R.Reject('unresolved label ' + name)
